@@ -73,6 +73,10 @@ type sessM struct {
 	id        [nfsv4.NFS4_SESSIONID_SIZE]byte
 	slots     []*slotM
 	destroyed bool
+
+	// The client was told (BADSESSION, DESTROY_SESSION) that the session
+	// is gone.
+	clientKnowsDead bool
 }
 
 func (s *sessM) String() string { return fmt.Sprintf("%s.s%d", s.inc, s.ord) }
